@@ -286,6 +286,11 @@ def run(ctx):
     conn = a3(ctx, R)
     # "announced by the server" means by THIS connection's server: the capability table starts empty (A8 of C10)
     a8(ctx, R)
+    # "the client's preference order" is the same for every connection of the process: the list of implemented mechanisms (and the
+    # list of known capabilities) has no writer (H1 of C13)
+    from .proles import ParserRoles
+    from .c13 import h1
+    h1(ctx, ParserRoles(ctx, "C16"), only={"SUPPORTED_AUTH_MECHS", "KNOWN_CAPABILITIES"})
     ctx.rule("U7", "connect's verdict is the authenticator's verdict for THIS connection")
     acalls = [c for c in self_calls(conn, auth.name)]
     rets = [r for r in walk_no_nested(conn.node) if isinstance(r, ast.Return) and r.value is not None]
